@@ -570,6 +570,9 @@ class RandMaxVar(MaxVar):
             return pt_eval.ravel()
 
         def _evaluate_logpdf(theta):
+            # the acquisitions are simulated: keep the chain inside the bounds of the surrogate
+            if any(not (b[0] <= th <= b[1]) for th, b in zip(np.ravel(theta), gp.bounds)):
+                return -np.inf
             val_pdf = self.evaluate(theta)
             if val_pdf == 0:
                 return -np.inf
